@@ -382,6 +382,33 @@ def layout_instances(m, fs):
     return [dict(layout=k[0], array=k[1], pos=k[2], fields=v) for k, v in sorted(out.items(), key=lambda kv: kv[0][2])]
 
 
+def cvc5_check(smt2, timeout_ms):
+    """second back end: /usr/bin/cvc5 on the SMT-LIB2 text of the query; only `unsat`
+    is used (a proof); anything else leaves the obligation undecided"""
+    import os
+    import subprocess
+    import tempfile
+    exe = '/usr/bin/cvc5'
+    if not os.path.exists(exe):
+        return 'unavailable'
+    fd, path = tempfile.mkstemp(suffix='.smt2', prefix='pyvc_')
+    try:
+        with os.fdopen(fd, 'w') as f:
+            f.write('(set-logic ALL)\n' + smt2)
+        try:
+            out = subprocess.run([exe, '--tlimit=%d' % timeout_ms, '--strings-exp', path],
+                                 capture_output=True, text=True, timeout=timeout_ms / 1000.0 + 5)
+        except subprocess.TimeoutExpired:
+            return 'timeout'
+        first = (out.stdout.strip().splitlines() or [''])[0]
+        return first if first in ('unsat', 'sat', 'unknown') else 'error'
+    finally:
+        try:
+            os.unlink(path)
+        except OSError:
+            pass
+
+
 def _solve(pc, goal, timeout_ms, axioms):
     s = z3.Solver()
     s.set('timeout', timeout_ms)
@@ -398,9 +425,19 @@ def discharge(res, timeout_ms=10000, want_models=True):
     for ob in getattr(res, '_obs', []):
         t0 = time.time()
         axioms = ground_facts(list(ob.pc) + [ob.goal], getattr(ob, 'byte_arrays', ()))
-        s, r = _solve(ob.pc, ob.goal, timeout_ms, axioms)
+        sopt = getattr(res.contract, 'solver', {}) or {}
+        tmo = max(timeout_ms, sopt.get('timeout_ms', 0))
+        pre = None
+        if sopt.get('first') == 'cvc5':
+            s0, _ = _solve(ob.pc, ob.goal, 1, axioms)
+            if cvc5_check(s0.to_smt2(), tmo) == 'unsat':
+                pre = 'cvc5-1.0.3'
+        if pre:
+            s, r = None, z3.unsat
+        else:
+            s, r = _solve(ob.pc, ob.goal, tmo if not sopt.get('first') else timeout_ms, axioms)
         verdict = 'proved' if r == z3.unsat else ('refuted' if r == z3.sat else 'undecided')
-        rec = dict(name=ob.name, kind=ob.kind, verdict=verdict, backend='z3-%s' % z3.get_version_string(),
+        rec = dict(name=ob.name, kind=ob.kind, verdict=verdict, backend=pre or 'z3-%s' % z3.get_version_string(),
                    time=0.0, line=ob.line)
         if verdict == 'refuted' and want_models:
             try:
@@ -411,6 +448,12 @@ def discharge(res, timeout_ms=10000, want_models=True):
         if verdict == 'undecided':
             rec['reason'] = s.reason_unknown()
             rec['smt2'] = s.to_smt2()
+            r2 = cvc5_check(rec['smt2'], max(tmo, 20000)) if not sopt.get('first') else 'skipped'
+            if r2 == 'unsat':
+                verdict = rec['verdict'] = 'proved'
+                rec['backend'] = 'cvc5-1.0.3 (z3: %s)' % rec['reason']
+                rec.pop('smt2', None)
+        if verdict == 'undecided':
             try:
                 m = s.model()
                 rec['candidate_model'] = model_dict(m)
